@@ -22,6 +22,15 @@ NAMES = ("foo", "bar", "baz", "name", "x_y", "__tag__")
 # (excluded from the read oracle, DESIGN.md C20), but a *write* through the link must still land on the target
 CLASS_LEVEL_NAMES = ("separator", "iter_path_reverse")
 VALUES = (0, 1, True, False, 1.0, None, "", "a", [1], [], (1,), {"k": 1})
+# ordinary words a user may pick as attribute names; every run adds two of them to NAMES (none of them is a name of
+# the node classes today - a name that becomes one would stop being forwarded)
+XPOOL = (
+    "level", "index", "data", "value", "label", "tag", "tags", "id", "key", "weight", "kind", "state", "type", "title", "text", "count",
+    "length", "order", "rank", "pos", "position", "link", "links", "next", "prev", "first", "last", "child", "node", "nodes", "tree",
+    "branch", "leaf", "degree", "width", "uid", "info", "meta", "attrs", "props", "payload", "color", "visible", "enabled", "dirty",
+    "cache", "flags", "owner", "source", "dest", "up", "down", "top", "parents", "is_link", "is_symlink", "subtree", "walk", "find",
+)
+NAV = ("path", "ancestors", "root", "depth", "is_root", "is_leaf", "siblings", "descendants", "leaves", "size", "height", "iter_path_reverse")
 MISSING = ("<missing>",)
 
 
@@ -29,7 +38,12 @@ def gen_cfg(rng, prop, tier):
     cfg = struct.gen_cfg(rng, "C20", tier)
     cfg["a_rate"] = rng.choice((0.2, 0.4, 0.6))
     cfg["w"]["new"] = rng.choice((1, 2, 3))
+    cfg["xnames"] = rng.sample(XPOOL, 2)
     return cfg
+
+
+def names_of(cfg):
+    return NAMES + tuple(cfg.get("xnames") or ())
 
 
 class Store(object):
@@ -37,6 +51,7 @@ class Store(object):
 
     def __init__(self, cfg):
         self.cls = list(cfg["classes"])
+        self.names = names_of(cfg)
         self.target = list(cfg["targets"])
         self.attrs = []
         for i, c in enumerate(self.cls):
@@ -54,7 +69,7 @@ class Store(object):
         self.attrs.append({})
         attrs = op.get("attrs") or {}
         if cls in LINK_CLASSES:
-            if cls == "HSym":
+            if cls in ("HSym", "PSym"):
                 h = self.holder(idx)
                 self.attrs[h].update(attrs)
         else:
@@ -77,6 +92,7 @@ class Store(object):
 
 def pre_gen_factory(store):
     def pre_gen(rng, model, cfg, step):
+        NAMES = names_of(cfg)  # noqa: N806 - shadows the module constant on purpose
         n = len(model)
         r = rng.random()
         if r < cfg["a_rate"]:
@@ -109,7 +125,7 @@ def pre_gen_factory(store):
             # a link constructed with keyword attributes, often to another link
             links = [j for j in range(n) if store.cls[j] in LINK_CLASSES]
             t = rng.choice(links) if links and rng.random() < 0.6 else rng.randrange(n)
-            op = {"op": "new", "cls": "HSym", "name": "n%d" % n, "target": t, "p": rng.choice((None, rng.randrange(n)))}
+            op = {"op": "new", "cls": "PSym" if "PSym" in cfg["menu"] else "HSym", "name": "n%d" % n, "target": t, "p": rng.choice((None, rng.randrange(n)))}
             ks = rng.sample(NAMES, rng.randint(0, 2))
             if ks:
                 op["attrs"] = {k: "c%d" % step for k in ks}
@@ -119,11 +135,34 @@ def pre_gen_factory(store):
     return pre_gen
 
 
+def check_nav(step, world, res, op):
+    """The link's position is its own: navigation attributes of links, of their targets and of everybody else are
+    what the links of the forest say.  Only a few (node, attribute) pairs are read each time, drawn from the
+    operation record: a checker that re-reads everything after every step would keep any memo fresh."""
+    import random
+
+    from .queries import lib_nav_one, ref_nav
+
+    snap = world.snapshot()
+    ref = ref_nav(snap)
+    r = random.Random(struct.stable_hash((step, repr(sorted(op.items(), key=repr)))))
+    n = len(snap)
+    for _ in range(r.choice((0, 1, 2, 3, 2 * n))):
+        i = r.randrange(n)
+        k = r.choice(NAV)
+        got = lib_nav_one(world, world.nodes[i], k)
+        res.bump("nav_reads")
+        if got != ref[i][k]:
+            raise Violation("C20", "position", step, "position:%s:%s" % (k, world.cls[i] if world.cls[i] in LINK_CLASSES else "node"),
+                            "after step %d %s: %s of node %d (%s) is %r, the links say %r (forest %r)" % (step, op, k, i, world.cls[i], got, ref[i][k], snap))
+
+
 def check_reads(step, world, store, res, op):
     nodes = world.nodes
+    check_nav(step, world, res, op)
     for i in range(len(nodes)):
         node = nodes[i]
-        for k in NAMES:
+        for k in store.names:
             try:
                 got = getattr(node, k)
             except AttributeError:
@@ -192,7 +231,12 @@ def run(cfg, ops=None, rng=None):
             del world.nodes[h].__dict__[k]
             return
         if op["op"] == "setattr":
-            setattr(node, k, op["v"])
+            try:
+                setattr(node, k, op["v"])
+            except Exception as exc:  # noqa: BLE001
+                raise Violation("C20", "forward-write", step, "forward-write:raises:" + type(exc).__name__,
+                                "step %d %s: assigning an ordinary attribute %s raised %s: %s"
+                                % (step, op, "through link %d" % i if store.cls[i] in LINK_CLASSES else "on node %d" % i, type(exc).__name__, exc))
             store.attrs[store.holder(i)][k] = op["v"]
             res.bump("attr_writes_via_link" if store.cls[i] in LINK_CLASSES else "attr_writes_direct")
         else:
